@@ -16,7 +16,7 @@ from .. import rig as R, ref, gen, dump, hist, faults, subm
 from ..orch import h
 
 ID = "C10"
-TECHNIQUE = 'runtime monitoring - structural invariant walker over LMDB snapshots (every index key has its record, every record all its keys, re-derived by an independent layout oracle) after every operation, during writer bursts, after injected engine errors and after a second process used the environment; get_event compared with the keyspace'
+TECHNIQUE = 'runtime monitoring - structural invariant walker over LMDB snapshots (every index key has its record, every record all its keys, re-derived by an independent layout oracle) after every operation, during writer bursts, after injected engine errors and after a second process used the environment; get_event compared with the keyspace; end-to-end shard: 2-4 worker PROCESSES writing to one LMDB environment at the same time (replacements of the same addresses, author deletions, expirations with the real collector running), then the same keyspace walk over the files the server left'
 LEVEL = "fault_enumeration"
 RULE = (
     "cases = (seeded history of 20-60 operations on the LMDB backend: add, resubmit, author deletion, replaceable / "
@@ -30,17 +30,30 @@ RULE = (
     "with at least one record whose key set differs from the previous walk. Distinct = distinct canonical keyspaces walked."
 )
 ASSUMPTIONS = [
+    "end-to-end shards: a real gunicorn/uvicorn server process tree started from the tree under test (vf/e2e_launch.py: the repository's run_with_gunicorn / run_with_uvicorn; the SQL schema is made with the repository's metadata.create_all because its alembic env.py does not run with the installed SQLAlchemy; the notifier's fixed TCP port 6000 is replaced by a free port), spoken to over loopback TCP with the websockets client; real time, real sleeps",
     "LMDB backend over /verif/shim: key order, transactions and MVCC snapshots are the real liblmdb's; the ctypes binding is trusted (conformance self-test at setup)",
     "layout oracle: 0x00 id | 0x01 ts | 0x02 kind | 0x03 pubkey | 0x04 pubkey 0x00 kind | 0x09 name 0x00 value, each + 0x00 ts 0x00 id; values longer than 256 bytes indexed by 0x00 'sha256' 0x00 digest; 0xee sentinel",
     "for tag values that are not strings any of the renderings str()/tuple-str/JSON is accepted as the indexed text, but an entry must still belong to an existing record that carries such a tag",
 ]
 MIN_NONTRIVIAL = {"quick": 300, "thorough": 3000}
-REQUIRED_COUNTERS = ["walks.quiescent", "walks.concurrent", "injected_errors_fired", "records_checked", "get_event_checks", "peer_processes"]
+REQUIRED_COUNTERS = ["e2e.e2e_records_checked", "e2e.e2e_keys_checked", "walks.quiescent", "walks.concurrent", "injected_errors_fired", "records_checked", "get_event_checks", "peer_processes"]
 SHARD_TIMEOUT = {"quick": 500, "thorough": 3000}
 NOW = gen.T0
 
 
 def plan(tier, seed):
+    return _plan(tier, seed) + e2e_plan(tier, seed)
+
+
+def e2e_plan(tier, seed):
+    """shards on a REAL server process tree (vf/e2e.py)"""
+    out = [{"mode": "e2e", "e2e": "c10", "workers": 3, "seed": seed, "nevents": 150 if tier == "quick" else 600}]
+    if tier == "thorough":
+        out += [{"mode": "e2e", "e2e": "c10", "workers": w, "seed": seed + w, "nevents": 600} for w in (2, 4)]
+    return out
+
+
+def _plan(tier, seed):
     n, hs = (8, 6) if tier == "quick" else (64, 40)
     return [{"case_seed": seed * 7919 + i, "histories": hs} for i in range(n)]
 
@@ -317,6 +330,10 @@ async def run_many(histories, counters):
 
 
 def run_shard(spec):
+    if spec.get("mode") == "e2e":
+        from .. import e2e_cases
+
+        return e2e_cases.run_e2e_shard(ID, spec)
     r = random.Random(spec["case_seed"])
     counters = {}
     histories = []
@@ -348,6 +365,10 @@ def run_shard(spec):
 
 
 def replay(rp, spec):
+    if rp.get("mode") == "e2e":
+        from .. import e2e_cases
+
+        return e2e_cases.run_e2e_shard(ID, rp)
     counters = {}
     ops = [hist.Step.from_json(o) for o in rp["ops"]]
     v, nt = R.run(run_history, ops, counters, rp.get("inject"), rp.get("seed", 0))
